@@ -211,6 +211,8 @@ var transparentCalls = map[string]int{
 	"github.com/xelaj/mtproto/internal/math.BigIntFixedBytes": 0,
 	"github.com/xelaj/go-dry.BigIntBytes":                     0,
 	"github.com/xelaj/mtproto/telegram/internal/srp.pad256":   0,
+	// textual renderings of a byte string: still "that value"
+	"encoding/hex.EncodeToString": 0,
 }
 
 func typeOf(v any) string {
